@@ -550,6 +550,56 @@ class CorpusCrate:
 GENPROBE_DIR = os.path.join(VERIF, "harness", "genprobe")
 
 
+def real_expansion(ws_name, shards, release=False):
+    """The REAL expansion of corpus crates of workspace `ws_name` (already built): `cargo rustc -- -Zunpretty=expanded` with
+    RUSTC_BOOTSTRAP=1 on the stable toolchain, i.e. the real proc macros of /repo's working tree run by rustc in their real context.
+    -> ({k: lines of module m<k>}, problems)"""
+    env = dict(ENV)
+    env["RUSTC_BOOTSTRAP"] = "1"
+    root = os.path.join(WORK, "ws", ws_name)
+    mods, problems = {}, []
+    for s_ in shards:
+        if not os.path.isdir(os.path.join(root, "s%d" % s_)):
+            continue
+        pkg = "%s_s%d" % (ws_name, s_)
+        t = time.time()
+        r = sh(["cargo", "rustc", "--offline", "-p", pkg, "--bin", pkg] + (["--release"] if release else []) + ["--", "-Zunpretty=expanded"],
+               cwd=root, timeout=1200, env=env)
+        log("expansion of %s: rc=%d %.1fs" % (pkg, r.returncode, time.time() - t))
+        if r.returncode != 0:
+            problems.append("%s: %s" % (pkg, r.stderr[-400:]))
+            continue
+        cur, k = None, None
+        for line in r.stdout.split("\n"):
+            if cur is None:
+                m = re.match(r"^pub mod m(\d+) \{$", line)
+                if m:
+                    k, cur = int(m.group(1)), [line]
+            else:
+                cur.append(line)
+                if line == "}":
+                    mods[k] = cur
+                    cur = None
+    return mods, problems
+
+
+def cut_impl(mod_lines, marker):
+    """the text of the impl block (of an expanded module) that contains `marker`, or None"""
+    for i, line in enumerate(mod_lines):
+        if marker in line:
+            j = i
+            while j >= 0 and not re.match(r"^\s*(unsafe\s+)?impl\b", mod_lines[j]):
+                j -= 1
+            if j < 0:
+                return None
+            ind = re.match(r"^\s*", mod_lines[j]).group(0)
+            for e in range(i, len(mod_lines)):
+                if mod_lines[e] == ind + "}":
+                    return "\n".join(mod_lines[j:e + 1])
+            return None
+    return None
+
+
 def build_genprobe():
     """the real generator sources of /repo's working tree compiled into a command-line probe"""
     src_dir = GENPROBE_DIR
